@@ -149,6 +149,10 @@ def Column.flexible (c : Column) : Bool := c.ratio.isSome
 * `flexNegative`: the flexible widths are used as `ratio_distribute` returns them — a trailing zero-ratio column is handed
   *what is left*, which is negative when there is no room (`ratio_distribute(0, [1, 0], [1, 1]) = [1, -1]`), so the widths
   can sum to 0 and the final `ratio_distribute` asserts; repaired: `max(0, width)`.
+* `staleTableWidth`: after the collapse block re-measures the columns, `table_width` is NOT recomputed; the padding block then
+  sees the pre-re-measure total (`= max_width`), so an expanding table whose columns shrank on the re-measure (a ratio
+  column that was handed its flex minimum, a nested renderable) is left narrower than asked; repaired: `table_width = sum(widths)`
+  after the re-measure.
 (`Flags.repaired` repairs the first three only — the state other properties' witnesses were written against;
 `Flags.allRepaired` repairs all five.) -/
 structure Flags where
@@ -157,12 +161,13 @@ structure Flags where
   fixedRawMaximum : Bool := true
   noColumnsAsserts : Bool := true
   flexNegative : Bool := true
+  staleTableWidth : Bool := true
 deriving Repr, DecidableEq
 
 def Flags.today : Flags := {}
 def Flags.repaired : Flags := { leadingRepeat := false, minWidthCapsExpand := false, fixedRawMaximum := false }
 def Flags.allRepaired : Flags :=
-  { leadingRepeat := false, minWidthCapsExpand := false, fixedRawMaximum := false, noColumnsAsserts := false, flexNegative := false }
+  { leadingRepeat := false, minWidthCapsExpand := false, fixedRawMaximum := false, noColumnsAsserts := false, flexNegative := false, staleTableWidth := false }
 
 structure Table where
   columns : List Column
@@ -325,7 +330,7 @@ def Table.calcWidths (fl : Flags) (t : Table) (maxWidth : Int) : Option (List In
   | some widths =>
     if widths.sum > maxWidth then
       let sw := t.shrinkWidths widths maxWidth
-      t.padWidths fl sw.1 sw.2 maxWidth
+      t.padWidths fl sw.1 (if fl.staleTableWidth then sw.2 else sw.1.sum) maxWidth
     else t.padWidths fl widths widths.sum maxWidth
 
 /-- `Table.__rich_measure__(console, max_width)` (table.py:268-291); `none` = the `AssertionError` of `ratio_distribute`.
